@@ -20,6 +20,10 @@ pub enum BiasSpec {
 pub struct PredRow {
     pub a: Vec<f64>,
     pub b: BiasSpec,
+    /// copy (optionally negate) the row of an ancestor decision and shift its bias: plants paths
+    /// that contradict or duplicate an ancestor (exactly empty / lower-dimensional regions)
+    #[serde(default)]
+    pub anc: Option<(u16, bool, f64)>,
 }
 
 #[derive(Clone, Debug, Serialize, Deserialize)]
@@ -92,12 +96,23 @@ impl TreeSpec {
     }
 
     fn resolve_node(&self, n: &TNode, anchors: &[Vec<f64>]) -> RNode {
+        self.resolve_node_anc(n, anchors, &mut Vec::new())
+    }
+
+    fn resolve_node_anc(&self, n: &TNode, anchors: &[Vec<f64>], ancestors: &mut Vec<(Vec<f64>, f64)>) -> RNode {
         match n {
             TNode::Leaf(l) => RNode::Leaf(self.leaf_aff(l)),
             TNode::Dec { rows, kids } => {
                 let mut mat = Vec::new();
                 let mut bias = Vec::new();
                 for r in rows {
+                    if let (Some((sel, neg, shift)), false) = (&r.anc, ancestors.is_empty()) {
+                        let (aa, ab) = &ancestors[pick(*sel, ancestors.len())];
+                        let s = if *neg { -1.0 } else { 1.0 };
+                        mat.push(aa.iter().map(|x| x * s).collect());
+                        bias.push(ab * s + shift);
+                        continue;
+                    }
                     let b = match &r.b {
                         BiasSpec::Val(v) => *v,
                         BiasSpec::Through(i) => {
@@ -112,10 +127,13 @@ impl TreeSpec {
                     mat.push(r.a.clone());
                     bias.push(b);
                 }
-                RNode::Dec {
-                    pred: Aff { mat: Mat { rows: mat, cols: self.in_dim }, bias },
-                    kids: kids.iter().map(|k| k.as_ref().map(|k| self.resolve_node(k, anchors))).collect(),
+                let depth_before = ancestors.len();
+                for (a, b) in mat.iter().zip(&bias) {
+                    ancestors.push((a.clone(), *b));
                 }
+                let kids = kids.iter().map(|k| k.as_ref().map(|k| self.resolve_node_anc(k, anchors, ancestors))).collect();
+                ancestors.truncate(depth_before);
+                RNode::Dec { pred: Aff { mat: Mat { rows: mat, cols: self.in_dim }, bias }, kids }
             }
         }
     }
@@ -277,8 +295,12 @@ fn pred_row(n: usize) -> impl Strategy<Value = PredRow> {
     });
     // occasionally a genuinely zero row (degenerate predicate)
     let a = prop_oneof![19 => a, 1 => Just(vec![0.0; n])];
-    (a, prop_oneof![1 => nice_with(32, 2).prop_map(BiasSpec::Val), 1 => any::<u16>().prop_map(BiasSpec::Through)])
-        .prop_map(|(a, b)| PredRow { a, b })
+    (
+        a,
+        prop_oneof![1 => nice_with(32, 2).prop_map(BiasSpec::Val), 1 => any::<u16>().prop_map(BiasSpec::Through)],
+        prop::option::weighted(0.2, (any::<u16>(), any::<bool>(), prop_oneof![2 => Just(0.0), 1 => Just(1.0), 1 => Just(-1.0), 1 => nice_with(8, 1)])),
+    )
+        .prop_map(|(a, b, anc)| PredRow { a, b, anc })
 }
 
 fn leaf_spec(out: usize, inn: usize, pool_pct: u32) -> impl Strategy<Value = LeafSpec> {
